@@ -15,6 +15,7 @@ import Mochi.Driver.Hostile
 import Mochi.Driver.Restart
 import Mochi.Driver.Crash
 import Mochi.Driver.Shutdown
+import Mochi.Driver.Hooks
 open Mochi.Driver
 
 structure DState where
@@ -40,7 +41,7 @@ def answer (st : DState) (line : String) : DState × String :=
   match ws with
   | ["reset"] => ({}, "-\tok\t-")
   | _ =>
-    match (varintOp impl ws <|> keepaliveOp impl ws <|> wsOp impl ws <|> codecOp impl ws <|> readerOp impl ws) with
+    match (varintOp impl ws <|> keepaliveOp impl ws <|> wsOp impl ws <|> codecOp impl ws <|> readerOp impl ws <|> hooksOp impl ws) with
     | some r => (st, fmt r)
     | none =>
       match (topicsOp st.topics impl ws <|> topicsConcOp st.topics impl ws) with
